@@ -11,7 +11,7 @@ use proptest::prelude::*;
 use refmqtt as rf;
 use serde::{Deserialize, Serialize};
 use serde_json::json;
-use std::collections::VecDeque;
+use std::collections::{BTreeSet, VecDeque};
 use std::io::{Read, Write};
 use std::pin::Pin;
 use std::sync::atomic::{AtomicBool, AtomicU64, Ordering};
@@ -69,10 +69,33 @@ pub struct WsWriteCase {
 }
 
 #[derive(Clone, Debug, Serialize, Deserialize, PartialEq, Eq)]
+pub enum Fault {
+    /// writes fail (broken pipe) once the transport has accepted the given number of bytes
+    WriteErr,
+    /// the peer closes: reads return end-of-stream once the transport has accepted the given number of bytes
+    ReadEof,
+    /// reads fail (connection reset) once the transport has accepted the given number of bytes
+    ReadErr,
+}
+
+/// the transport fails on the first connections and the client reconnects (a fresh transport per connection)
+#[derive(Clone, Debug, Serialize, Deserialize, PartialEq, Eq)]
+pub struct FaultCase {
+    pub tokio: bool,
+    pub v5: bool,
+    pub write_plan: Vec<WStep>,
+    pub read_frags: Vec<u16>,
+    pub ops: Vec<ROp>,
+    /// connection i (in order of establishment) suffers faults[i] after that many bytes; later connections are healthy
+    pub faults: Vec<(Fault, u16)>,
+}
+
+#[derive(Clone, Debug, Serialize, Deserialize, PartialEq, Eq)]
 pub enum RCase {
     Client(ClientCase),
     WsRead(WsReadCase),
     WsWrite(WsWriteCase),
+    Faulty(FaultCase),
 }
 
 // ------------------------------------------------------------------------------------------------
@@ -99,6 +122,11 @@ struct Shared {
     blocked_writes: u64,
     read_calls: u64,
     rx_malformed: Option<String>,
+    /// fault script of this connection (see FaultCase)
+    fault: Option<(Fault, usize)>,
+    write_error: bool,
+    read_error: bool,
+    fault_struck: bool,
 }
 
 impl Shared {
@@ -179,7 +207,13 @@ impl Shared {
                 }
                 WStep::Accept(n) => {
                     self.write_ix += 1;
-                    let n = (n.max(1) as usize).min(buf.len());
+                    let mut n = (n.max(1) as usize).min(buf.len());
+                    if let Some((_, k)) = &self.fault {
+                        // the fault strikes exactly after k bytes
+                        if *k > self.rx.len() {
+                            n = n.min(*k - self.rx.len());
+                        }
+                    }
                     if n < buf.len() {
                         self.partial_writes += 1;
                     }
@@ -187,7 +221,27 @@ impl Shared {
                     self.bytes_moved += n as u64;
                     self.last_activity = Instant::now();
                     self.broker();
+                    self.strike_if_due();
                     return Some(n);
+                }
+            }
+        }
+    }
+
+    fn strike_if_due(&mut self) {
+        if let Some((f, k)) = self.fault.clone() {
+            if !self.fault_struck && self.rx.len() >= k {
+                self.fault_struck = true;
+                match f {
+                    Fault::WriteErr => self.write_error = true,
+                    Fault::ReadEof => {
+                        self.eof = true;
+                        self.to_client.clear();
+                    }
+                    Fault::ReadErr => {
+                        self.read_error = true;
+                        self.to_client.clear();
+                    }
                 }
             }
         }
@@ -220,6 +274,10 @@ struct Transport(Arc<Mutex<Shared>>);
 impl Read for Transport {
     fn read(&mut self, buf: &mut [u8]) -> std::io::Result<usize> {
         let mut s = self.0.lock().unwrap();
+        s.strike_if_due();
+        if s.read_error {
+            return Err(std::io::Error::new(std::io::ErrorKind::ConnectionReset, "scripted read failure"));
+        }
         match s.on_read(buf) {
             Ok(Some(n)) => Ok(n),
             Ok(None) => Err(std::io::Error::new(std::io::ErrorKind::WouldBlock, "no data")),
@@ -231,6 +289,10 @@ impl Read for Transport {
 impl Write for Transport {
     fn write(&mut self, buf: &[u8]) -> std::io::Result<usize> {
         let mut s = self.0.lock().unwrap();
+        s.strike_if_due();
+        if s.write_error {
+            return Err(std::io::Error::new(std::io::ErrorKind::BrokenPipe, "scripted write failure"));
+        }
         match s.on_write(buf) {
             Some(n) => Ok(n),
             None => Err(std::io::Error::new(std::io::ErrorKind::WouldBlock, "busy")),
@@ -244,6 +306,10 @@ impl Write for Transport {
 impl tokio::io::AsyncRead for Transport {
     fn poll_read(self: Pin<&mut Self>, cx: &mut Context<'_>, buf: &mut tokio::io::ReadBuf<'_>) -> Poll<std::io::Result<()>> {
         let mut s = self.0.lock().unwrap();
+        s.strike_if_due();
+        if s.read_error {
+            return Poll::Ready(Err(std::io::Error::new(std::io::ErrorKind::ConnectionReset, "scripted read failure")));
+        }
         let mut tmp = vec![0u8; buf.remaining().min(8192)];
         match s.on_read(&mut tmp) {
             Ok(Some(n)) => {
@@ -262,6 +328,10 @@ impl tokio::io::AsyncRead for Transport {
 impl tokio::io::AsyncWrite for Transport {
     fn poll_write(self: Pin<&mut Self>, cx: &mut Context<'_>, buf: &[u8]) -> Poll<std::io::Result<usize>> {
         let mut s = self.0.lock().unwrap();
+        s.strike_if_due();
+        if s.write_error {
+            return Poll::Ready(Err(std::io::Error::new(std::io::ErrorKind::BrokenPipe, "scripted write failure")));
+        }
         match s.on_write(buf) {
             Some(n) => {
                 if let Some(w) = s.reader_waker.take() {
@@ -420,6 +490,10 @@ fn new_shared(c: &ClientCase) -> Arc<Mutex<Shared>> {
         blocked_writes: 0,
         read_calls: 0,
         rx_malformed: None,
+        fault: None,
+        write_error: false,
+        read_error: false,
+        fault_struck: false,
     }))
 }
 
@@ -875,6 +949,297 @@ fn check_client(c: &ClientCase) -> CaseReport {
 }
 
 // ------------------------------------------------------------------------------------------------
+// transport faults and reconnects
+// ------------------------------------------------------------------------------------------------
+
+fn fault_client_options(v5: bool) -> (MqttClientOptions, ConnectOptions) {
+    let mut cb = MqttClientOptions::builder();
+    cb.with_protocol_mode(if v5 { ProtocolMode::Mqtt5 } else { ProtocolMode::Mqtt311 });
+    cb.with_offline_queue_policy(OfflineQueuePolicy::PreserveAll);
+    cb.with_connect_timeout(Duration::from_secs(600));
+    cb.with_base_reconnect_period(Duration::from_millis(2));
+    cb.with_max_reconnect_period(Duration::from_secs(1));
+    cb.with_reconnect_period_jitter(ExponentialBackoffJitterType::None);
+    let mut conn = ConnectOptions::builder();
+    conn.with_keep_alive_interval_seconds(None);
+    conn.with_client_id("faulty");
+    (cb.build(), conn.build())
+}
+
+struct FaultRun {
+    conns: Vec<Arc<Mutex<Shared>>>,
+    outcomes: Vec<Option<Outcome>>,
+    loop_gone: bool,
+    stalled: bool,
+}
+
+fn fault_new_conn(c: &FaultCase, conns: &Arc<Mutex<Vec<Arc<Mutex<Shared>>>>>) -> Arc<Mutex<Shared>> {
+    let tmp = ClientCase { tokio: c.tokio, v5: c.v5, write_plan: c.write_plan.clone(), read_frags: c.read_frags.clone(), ops: Vec::new(), inbound: Vec::new(), submitters: 1, close: CloseMode::None };
+    let sh = new_shared(&tmp);
+    let mut list = conns.lock().unwrap();
+    if let Some((f, k)) = c.faults.get(list.len()) {
+        sh.lock().unwrap().fault = Some((f.clone(), *k as usize));
+    }
+    list.push(sh.clone());
+    sh
+}
+
+/// waits until `done()`, or until no connection has moved a byte (and none was opened) for `idle`
+fn fault_wait(conns: &Arc<Mutex<Vec<Arc<Mutex<Shared>>>>>, idle: Duration, cap: Duration, mut done: impl FnMut() -> bool) -> (bool, bool) {
+    let start = Instant::now();
+    let mut last_sig = (0usize, 0u64);
+    let mut last_change = Instant::now();
+    loop {
+        if done() {
+            return (true, false);
+        }
+        let sig = {
+            let l = conns.lock().unwrap();
+            (l.len(), l.iter().map(|s| s.lock().unwrap().bytes_moved).sum::<u64>())
+        };
+        if sig != last_sig {
+            last_sig = sig;
+            last_change = Instant::now();
+        }
+        if last_change.elapsed() > idle {
+            return (false, true);
+        }
+        if start.elapsed() > cap {
+            return (false, false);
+        }
+        std::thread::sleep(Duration::from_millis(2));
+    }
+}
+
+fn run_faulty_threaded(c: &FaultCase) -> FaultRun {
+    let conns: Arc<Mutex<Vec<Arc<Mutex<Shared>>>>> = Arc::new(Mutex::new(Vec::new()));
+    let conns2 = conns.clone();
+    let c2 = c.clone();
+    let factory: Arc<dyn Fn() -> GneissResult<Transport> + Send + Sync> = Arc::new(move || Ok(Transport(fault_new_conn(&c2, &conns2))));
+    let (copts, conn) = fault_client_options(c.v5);
+    let client = new_threaded_client(copts, conn, ThreadedOptions::builder().build(), factory);
+    let _ = client.start(None);
+    enum Handle {
+        P(SyncPublishResult),
+        S(SyncSubscribeResult),
+        U(SyncUnsubscribeResult),
+    }
+    let n = c.ops.len();
+    let mut handles = Vec::new();
+    for (ix, op) in c.ops.iter().enumerate() {
+        let tag = ix as u32 + 1;
+        handles.push(match op {
+            ROp::Pub { qos, size } => Handle::P(client.publish(pub_packet(tag, *qos, *size as usize), None)),
+            ROp::Sub => Handle::S(client.subscribe(sub_packet(tag), None)),
+            ROp::Unsub => Handle::U(client.unsubscribe(unsub_packet(tag), None)),
+        });
+    }
+    let mut outcomes: Vec<Option<Outcome>> = (0..n).map(|_| None).collect();
+    let (_done, stalled) = fault_wait(&conns, Duration::from_secs(8), Duration::from_secs(90), || {
+        for (ix, h) in handles.iter().enumerate() {
+            if outcomes[ix].is_none() {
+                outcomes[ix] = match h {
+                    Handle::P(r) => r.try_recv().map(conv_pub),
+                    Handle::S(r) => r.try_recv().map(conv_sub),
+                    Handle::U(r) => r.try_recv().map(conv_unsub),
+                };
+            }
+        }
+        outcomes.iter().all(|o| o.is_some())
+    });
+    let _ = client.close();
+    let (gone, _) = fault_wait(&conns, Duration::from_secs(5), Duration::from_secs(20), || client.start(None).is_err());
+    let list = conns.lock().unwrap().clone();
+    FaultRun { conns: list, outcomes, loop_gone: gone, stalled }
+}
+
+fn run_faulty_tokio(c: &FaultCase) -> FaultRun {
+    let rt = runtime();
+    let conns: Arc<Mutex<Vec<Arc<Mutex<Shared>>>>> = Arc::new(Mutex::new(Vec::new()));
+    let conns2 = conns.clone();
+    let c2 = c.clone();
+    type Fut = Pin<Box<dyn std::future::Future<Output = GneissResult<Transport>> + Send>>;
+    let factory: Box<dyn Fn() -> Fut + Send + Sync> = Box::new(move || {
+        let sh = fault_new_conn(&c2, &conns2);
+        Box::pin(async move { Ok(Transport(sh)) })
+    });
+    let (copts, conn) = fault_client_options(c.v5);
+    let client = {
+        let _g = rt.enter();
+        new_tokio_client(copts, conn, TokioOptions::builder(rt.handle().clone()).build(), factory)
+    };
+    let _ = client.start(None);
+    let n = c.ops.len();
+    let outcomes: Arc<Mutex<Vec<Option<Outcome>>>> = Arc::new(Mutex::new((0..n).map(|_| None).collect()));
+    for (ix, op) in c.ops.iter().enumerate() {
+        let tag = ix as u32 + 1;
+        let outcomes = outcomes.clone();
+        match op {
+            ROp::Pub { qos, size } => {
+                let f = client.publish(pub_packet(tag, *qos, *size as usize), None);
+                rt.spawn(async move {
+                    let r = conv_pub(f.await);
+                    outcomes.lock().unwrap()[ix] = Some(r);
+                });
+            }
+            ROp::Sub => {
+                let f = client.subscribe(sub_packet(tag), None);
+                rt.spawn(async move {
+                    let r = conv_sub(f.await);
+                    outcomes.lock().unwrap()[ix] = Some(r);
+                });
+            }
+            ROp::Unsub => {
+                let f = client.unsubscribe(unsub_packet(tag), None);
+                rt.spawn(async move {
+                    let r = conv_unsub(f.await);
+                    outcomes.lock().unwrap()[ix] = Some(r);
+                });
+            }
+        }
+    }
+    let o2 = outcomes.clone();
+    let (_done, stalled) = fault_wait(&conns, Duration::from_secs(8), Duration::from_secs(90), || o2.lock().unwrap().iter().all(|o| o.is_some()));
+    let _ = client.close();
+    let (gone, _) = fault_wait(&conns, Duration::from_secs(5), Duration::from_secs(20), || client.start(None).is_err());
+    let outs = outcomes.lock().unwrap().clone();
+    let list = conns.lock().unwrap().clone();
+    FaultRun { conns: list, outcomes: outs, loop_gone: gone, stalled }
+}
+
+fn check_faulty(c: &FaultCase) -> CaseReport {
+    let r = if c.tokio { run_faulty_tokio(c) } else { run_faulty_threaded(c) };
+    let driver = if c.tokio { "tokio" } else { "threaded" };
+    let mut violations = Vec::new();
+    let mut labels: Vec<String> = vec![format!("driver:{}", driver), "transport_faults".into()];
+    let version = if c.v5 { rf::Version::V5 } else { rf::Version::V311 };
+    if r.conns.is_empty() {
+        return CaseReport { labels, inconclusive: true, ..Default::default() };
+    }
+    if !r.loop_gone {
+        violations.push(Violation::new("C13.close_never_completes", format!("{}: the event loop is still alive 20 s after close()", driver), String::new()));
+    }
+    // the connection that was never given a fault is healthy: with a responsive broker behind it and the
+    // preserve-everything offline policy every operation completes successfully there
+    let healthy_reached = r.conns.len() > c.faults.len();
+    let mut missing = 0;
+    for (ix, o) in r.outcomes.iter().enumerate() {
+        match (o, &c.ops[ix]) {
+            (None, _) => missing += 1,
+            (Some(Outcome::OkPub0), ROp::Pub { qos: 0, .. }) | (Some(Outcome::OkPub1), ROp::Pub { qos: 1, .. }) | (Some(Outcome::OkPub2), ROp::Pub { qos: 2, .. }) | (Some(Outcome::OkSub(2)), ROp::Sub) | (Some(Outcome::OkUnsub(1)), ROp::Unsub) => {}
+            (Some(other), op) => {
+                violations.push(Violation::new("C13.wrong_result_after_faults", format!("{}: an operation that the offline policy preserves does not complete successfully after transport faults and a reconnect", driver), format!("tag {} op {:?} outcome {:?} faults {:?}", ix + 1, op, other, c.faults)));
+                break;
+            }
+        }
+    }
+    if missing > 0 && r.stalled {
+        violations.push(Violation::new("C13.result_missing_after_faults", format!("{}: operations never complete although the transport is idle and a healthy connection with a responsive broker was available", driver), format!("{} of {} unresolved; connections {} faults {:?}", missing, c.ops.len(), r.conns.len(), c.faults)));
+    }
+    // per connection: what the transport received
+    let mut seen_complete: BTreeSet<u32> = BTreeSet::new();
+    let mut struck_after_connack = false;
+    let mut struck_mid_packet = false;
+    for (ci, sh) in r.conns.iter().enumerate() {
+        let s = sh.lock().unwrap();
+        let faulted = ci < c.faults.len();
+        if let Some(m) = &s.rx_malformed {
+            violations.push(Violation::new("C13.stream_corrupt", format!("{}: the bytes handed to the transport are not the packets the engine produced (reference decoder: {})", driver, m.chars().map(|ch| if ch.is_ascii_digit() { '#' } else { ch }).take(80).collect::<String>()), format!("connection {} at offset {} of {}", ci, s.parse_off, s.rx.len())));
+            continue;
+        }
+        let mut off = 0;
+        let mut first = true;
+        let mut tags_here: BTreeSet<(u8, u32)> = BTreeSet::new();
+        let mut trailing = false;
+        while off < s.rx.len() {
+            match rf::decode(version, rf::Direction::ClientToServer, &s.rx[off..]) {
+                Ok((p, used)) => {
+                    off += used;
+                    if first && !matches!(p, rf::Packet::Connect(_)) {
+                        violations.push(Violation::new("C13.connection_does_not_start_with_connect", format!("{}: a new connection's byte stream does not start with the CONNECT the engine produced for it (stale bytes of an earlier connection?)", driver), format!("connection {} first packet {:?}", ci, std::mem::discriminant(&p))));
+                    }
+                    if !first && matches!(p, rf::Packet::Connect(_)) {
+                        violations.push(Violation::new("C13.stream_sequence", format!("{}: CONNECT repeated within one connection", driver), format!("connection {}", ci)));
+                    }
+                    first = false;
+                    if let Some(t) = crate::sim::tag_of_packet(&p) {
+                        let code = match &p {
+                            rf::Packet::Publish(pp) => {
+                                if let Some(ROp::Pub { size, .. }) = c.ops.get((t as usize).wrapping_sub(1)) {
+                                    if pp.payload != payload(t, *size as usize) {
+                                        violations.push(Violation::new("C13.payload_corrupt", format!("{}: a PUBLISH payload arrives altered", driver), format!("tag {} connection {}", t, ci)));
+                                    }
+                                }
+                                3u8
+                            }
+                            rf::Packet::Subscribe(_) => 8,
+                            rf::Packet::Unsubscribe(_) => 10,
+                            _ => 0,
+                        };
+                        if code != 0 {
+                            if !tags_here.insert((code, t)) {
+                                violations.push(Violation::new("C13.stream_sequence", format!("{}: operations duplicated on the wire", driver), format!("tag {} twice on connection {}", t, ci)));
+                            }
+                            seen_complete.insert(t);
+                        }
+                    }
+                }
+                Err(rf::DecodeError::Incomplete) => {
+                    trailing = true;
+                    break;
+                }
+                Err(rf::DecodeError::Malformed(m)) => {
+                    violations.push(Violation::new("C13.stream_corrupt", format!("{}: the bytes handed to the transport are not the packets the engine produced (reference decoder: {})", driver, m.chars().map(|ch| if ch.is_ascii_digit() { '#' } else { ch }).take(80).collect::<String>()), format!("connection {} at offset {} of {}", ci, off, s.rx.len())));
+                    break;
+                }
+            }
+        }
+        if trailing && !faulted && !r.stalled && missing == 0 {
+            violations.push(Violation::new("C13.stream_truncated", format!("{}: the transport received an incomplete packet although every operation completed", driver), format!("connection {} {} bytes", ci, s.rx.len())));
+        }
+        if faulted && s.fault_struck {
+            if trailing {
+                struck_mid_packet = true;
+            }
+            if tags_here.len() > 0 || s.parse_off > 0 && s.rx.len() > 40 {
+                struck_after_connack = true;
+            }
+        }
+    }
+    // nothing lost: an operation reported successful was received completely on some connection
+    if violations.is_empty() {
+        for (ix, o) in r.outcomes.iter().enumerate() {
+            if matches!(o, Some(Outcome::OkPub0 | Outcome::OkPub1 | Outcome::OkPub2 | Outcome::OkSub(_) | Outcome::OkUnsub(_))) && !seen_complete.contains(&(ix as u32 + 1)) {
+                violations.push(Violation::new("C13.reported_but_never_sent", format!("{}: an operation is reported successful although the transport never received its packet completely", driver), format!("tag {} op {:?}", ix + 1, c.ops[ix])));
+                break;
+            }
+        }
+    }
+    if r.conns.len() > c.faults.len() + 1 && violations.is_empty() {
+        violations.push(Violation::new("C13.unexpected_reconnect", format!("{}: the client dropped a connection whose transport never failed", driver), format!("{} connections for {} scripted faults", r.conns.len(), c.faults.len())));
+    }
+    if struck_after_connack {
+        labels.push("fault_after_handshake".into());
+    }
+    if struck_mid_packet {
+        labels.push("fault_mid_packet".into());
+    }
+    if r.conns.len() >= 3 {
+        labels.push("connections>=3".into());
+    }
+    if healthy_reached {
+        labels.push("healthy_connection_reached".into());
+    }
+    if r.stalled {
+        labels.push("stalled".into());
+    }
+    let nontrivial = struck_after_connack || struck_mid_packet || r.conns.len() >= 3;
+    let digest = hash_str(&format!("{:?}", c));
+    let sample = json!({"kind": "transport_faults", "driver": driver, "v5": c.v5, "ops": c.ops.len(), "faults": format!("{:?}", c.faults), "connections": r.conns.len(), "bytes_per_connection": r.conns.iter().map(|s| s.lock().unwrap().rx.len()).collect::<Vec<_>>(), "outcomes": r.outcomes.iter().take(12).map(|x| format!("{:?}", x)).collect::<Vec<_>>()});
+    CaseReport { violations, labels, nontrivial, digest, sample: Some(sample), inconclusive: missing > 0 && !r.stalled, ..Default::default() }
+}
+
+// ------------------------------------------------------------------------------------------------
 // websocket adapter
 // ------------------------------------------------------------------------------------------------
 
@@ -1180,6 +1545,18 @@ fn client_case() -> BoxedStrategy<ClientCase> {
         .boxed()
 }
 
+fn fault_case() -> BoxedStrategy<FaultCase> {
+    let fault = (prop_oneof![Just(Fault::WriteErr), Just(Fault::ReadEof), Just(Fault::ReadErr)], prop_oneof![2 => 0u16..30, 3 => 30u16..200, 2 => 200u16..3000, 1 => 3000u16..20000]);
+    (any::<bool>(), any::<bool>(), vec(wstep(), 0..5), vec(prop_oneof![Just(1u16), Just(2u16), Just(5u16), 1u16..300, Just(4096u16)], 0..4), vec(rop(), 1..12), vec(fault, 1..4))
+        .prop_map(|(tokio, v5, mut write_plan, read_frags, ops, faults)| {
+            if !write_plan.is_empty() && !write_plan.iter().any(|s| matches!(s, WStep::Accept(_))) {
+                write_plan.push(WStep::Accept(5));
+            }
+            FaultCase { tokio, v5, write_plan, read_frags, ops, faults }
+        })
+        .boxed()
+}
+
 fn ws_read_case() -> BoxedStrategy<WsReadCase> {
     (vec((prop_oneof![Just(1u32), Just(125u32), Just(126u32), Just(4095u32), Just(4096u32), Just(4097u32), Just(10_000u32), Just(70_000u32), 1u32..300], prop::bool::weighted(0.15)), 1..6), vec(prop::bool::weighted(0.2), 0..6), vec(prop_oneof![Just(1u16), Just(2u16), Just(13u16), 1u16..5000, Just(u16::MAX)], 0..4), prop_oneof![3 => Just(0u8), 1 => 2u8..7], prop_oneof![Just(1u32), Just(7u32), Just(100u32), Just(4096u32), Just(5000u32)])
         .prop_map(|(messages, ping_after, frags, would_block_every, read_buf)| WsReadCase { messages, ping_after, frags, would_block_every, read_buf })
@@ -1204,7 +1581,7 @@ impl Property for C13 {
     }
 
     fn strategy(&self, _tier: Tier) -> BoxedStrategy<RCase> {
-        prop_oneof![5 => client_case().prop_map(RCase::Client), 2 => ws_read_case().prop_map(RCase::WsRead), 2 => ws_write_case().prop_map(RCase::WsWrite)].boxed()
+        prop_oneof![5 => client_case().prop_map(RCase::Client), 3 => fault_case().prop_map(RCase::Faulty), 2 => ws_read_case().prop_map(RCase::WsRead), 2 => ws_write_case().prop_map(RCase::WsWrite)].boxed()
     }
 
     fn check(&self, case: &RCase) -> CaseReport {
@@ -1212,6 +1589,7 @@ impl Property for C13 {
             RCase::Client(c) => check_client(c),
             RCase::WsRead(c) => check_ws_read(c),
             RCase::WsWrite(c) => check_ws_write(c),
+            RCase::Faulty(c) => check_faulty(c),
         }
     }
 
